@@ -9,3 +9,4 @@ import BalmProofs.Props.C02
 #print axioms Balm.Props.C04.plain_history_inv
 #print axioms Balm.Impl.judgeStrict_sound
 #print axioms Balm.Impl.mem_minTrapsIn
+#print axioms Balm.Impl.judgeStrict_iff
